@@ -69,10 +69,22 @@ def derive(src, rec, out, k, alter=False):
             hw.store_metadata(meta)
             for f in feats:
                 hw.store_feature(f, data[f])
+            # two internal basins share the group /basin_events: the
+            # image-shaped rows in source order, the scalar rows reversed
+            # (each basin with its own feature list and mapping)
+            nsrc = len(rows["fl1_max"])
             hw.store_basin("rows %d" % k, "internal", "h5dataset",
-                           ["basin_events"], basin_feats=list(INTERNAL_FEATS),
+                           ["basin_events"], basin_feats=["image", "mask"],
                            basin_map=np.array(sel, dtype=np.uint64),
-                           internal_data=rows)
+                           internal_data={f: rows[f]
+                                          for f in ("image", "mask")})
+            hw.store_basin("rows %d reversed" % k, "internal", "h5dataset",
+                           ["basin_events"],
+                           basin_feats=["fl1_max", "frame"],
+                           basin_map=np.array([nsrc - 1 - i for i in sel],
+                                              dtype=np.uint64),
+                           internal_data={f: rows[f][::-1]
+                                          for f in ("fl1_max", "frame")})
     else:
         with dclab.new_dataset(src) as ds:
             rid = ds.get_measurement_identifier()
